@@ -225,7 +225,7 @@ func refIntegrity(t *dump.Tree, fix bool) ([]c09Item, *dump.Tree) {
 			}
 		}
 	}
-	fk(people, "org", orgs, "members", true)
+	fk(people, kOrgKey, orgs, "members", true)
 	linkSide(places, "people", people, "places", "place", "person")
 	fk(pets, "owner", people, "pets", false)
 	return items, t
@@ -294,7 +294,7 @@ func c09Atoms() []c09Atom {
 		{"fk: back-reference #o1 -> #p1 missing", del([]string{"root", "orgs", "#o1", "members"}, tv("#p1"))},
 		{"fk: extra back-reference #o1 -> #p1x", put([]string{"root", "orgs", "#o1", "members"}, tv("#p1x"), []byte{})},
 		{"fk: dangling back-reference #o1 -> #zz", put([]string{"root", "orgs", "#o1", "members"}, tv("#zz"), []byte{})},
-		{"fk: #p1x.org references missing #zz (nullable)", put([]string{"root", "people", "#p1x"}, "org", world.EncString("#zz"))},
+		{"fk: #p1x.org references missing #zz (nullable)", put([]string{"root", "people", "#p1x"}, kOrgKey, world.EncString("#zz"))},
 		{"fk: #t1.owner references missing #zz (non-nullable)", put([]string{"root", "pets", "#t1"}, "owner", world.EncString("#zz"))},
 		{"fk: #t1.owner null in non-nullable", put([]string{"root", "pets", "#t1"}, "owner", world.EncNil())},
 		{"link: place side of #p1-#l1 missing", del([]string{"root", "places", "#l1", "people"}, tv("#p1"))},
